@@ -29,7 +29,7 @@ ASSUMPTIONS = [
 ]
 EXHAUSTIVE = {"quick": False, "thorough": False}
 QUERIES = ["find", "getNonEntries", "timestamps", "getValuesInIntervals", "getValuesAtPoints", "getValueAtTime", "getValuesInInterval",
-           "intervalOverlapCheck", "invertIntervalList", "eq", "validate.tier", "validate.textgrid"]
+           "intervalOverlapCheck", "invertIntervalList", "getIntervalsInInterval", "eq", "validate.tier", "validate.textgrid"]
 
 
 def floors(tier):
@@ -307,6 +307,50 @@ def _ioc_post(ctx):
         REC.held("q.intervalOverlapCheck", sig, None, case)
 
 
+def _giv_pre(ctx):
+    a, b, ivs, mode = ctx.arg(0, "start"), ctx.arg(1, "end"), ctx.arg(2, "intervals"), ctx.arg(3, "mode")
+    if not (num(a) and num(b)) or mode not in ("strict", "lax", "truncated") or a >= b:
+        return SKIP
+    try:
+        ents = [tuple(e) for e in ivs]
+        ok = all(len(e) == 3 and num(e[0]) and num(e[1]) and e[0] < e[1] for e in ents) and all(x[1] <= y[0] for x, y in zip(ents, ents[1:]))
+    except Exception:
+        return SKIP
+    if not ok:
+        REC.skip("q.getIntervalsInInterval", "intervals-not-sorted-and-disjoint")
+        return SKIP
+    return (ents, a, b, mode)
+
+
+def _giv_post(ctx):
+    """the interval helper behind crop: which of the given intervals lie in / overlap / are cut by [a, b] - by interval arithmetic"""
+    ents, a, b, mode = ctx.pre
+    exp = []
+    for s0, e0, lab in ents:
+        if e0 <= a or s0 >= b:
+            continue
+        inside = s0 >= a and e0 <= b
+        if mode == "strict":
+            if inside:
+                exp.append((s0, e0, lab))
+        elif mode == "lax":
+            exp.append((s0, e0, lab))
+        else:
+            exp.append((max(s0, a), min(e0, b), lab))
+    case = {"call": "getIntervalsInInterval", "ents": [list(e) for e in ents], "a": a, "b": b, "mode": mode}
+    sig = ("giv", mode, gen.order_type((a, b), ents))
+    got = None
+    if ctx.exc is None:
+        try:
+            got = [tuple(e) for e in ctx.result]
+        except Exception:
+            got = None
+    if got != exp:
+        viol("q.getIntervalsInInterval", "getIntervalsInInterval", case, "getIntervalsInInterval(%r, %r, %r, %r) gave %s, expected %r" % (a, b, ents, mode, desc(ctx.result, ctx.exc), exp), sig)
+    else:
+        REC.held("q.getIntervalsInInterval", sig if ents else None, None, case)
+
+
 def _inv_pre(ctx):
     lst, lo, hi = ctx.arg(0, "inputList"), ctx.arg(1, "minValue", None), ctx.arg(2, "maxValue", None)
     try:
@@ -563,6 +607,7 @@ def install():
     core.attach(utils, "getValuesInInterval", "q.getValuesInInterval", _gvii_pre, _gvii_post, method=False)
     core.attach(utils, "intervalOverlapCheck", "q.intervalOverlapCheck", _ioc_pre, _ioc_post, method=False)
     core.attach(utils, "invertIntervalList", "q.invertIntervalList", _inv_pre, _inv_post, method=False)
+    core.attach(utils, "getIntervalsInInterval", "q.getIntervalsInInterval", _giv_pre, _giv_post, method=False)
     for klass in (Interval, Point, TextgridTier, Textgrid):
         core.attach(klass, "__eq__", "q.eq", _eq_pre, _eq_post)
     for klass in (IntervalTier, PointTier, Textgrid):
@@ -661,6 +706,10 @@ def _workload(tier, rng, shard, nshards):
                 for incl in (False, True):
                     call(utils.intervalOverlapCheck, Interval(a[0], a[1], "x"), Interval(b[0], b[1], "y"), pct, tt, incl)
             REC.cls("C15:overlap:all-relations")
+            for mode in ("strict", "lax", "truncated"):
+                # the same pair as (interval, target window) of the helper behind crop, alone and with a neighbour on either side
+                call(utils.getIntervalsInInterval, b[0], b[1], [Interval(a[0], a[1], "x")], mode)
+                call(utils.getIntervalsInInterval, b[0], b[1], [Interval(a[0] - 1.0, a[0], "w"), Interval(a[0], a[1], "x"), Interval(a[1], a[1] + 1.0, "y")], mode)
     n = (2500 if tier == "quick" else 90000) // nshards
     queries = ["a", "b", "c", "ab", "", "A", "[ab]", "^a", "b$", "a|c", ".", "x"]
     for k in range(n):
@@ -895,6 +944,8 @@ def replay(v, work):
             call(utils.getValueAtTime, c["t"], [tuple(r) for r in c["data"]], c["fuzzy"], 0)
         elif k == "getValuesInInterval":
             call(utils.getValuesInInterval, [tuple(r) for r in c["data"]], c["a"], c["b"])
+        elif k == "getIntervalsInInterval":
+            call(utils.getIntervalsInInterval, c["a"], c["b"], [Interval(*e) for e in c["ents"]], c["mode"])
         elif k == "intervalOverlapCheck":
             call(utils.intervalOverlapCheck, Interval(c["a"][0], c["a"][1], "x"), Interval(c["b"][0], c["b"][1], "y"), c["pct"], c["tt"], c["incl"])
         elif k == "invertIntervalList":
